@@ -63,3 +63,19 @@ Proof.
   intros c s d r Hp Hdn Hc. split; [exact (cancel_ends_delay pause_table c s d r Hp Hdn Hc)|].
   split; [intros unicast t Ht; cbn; rewrite Ht; reflexivity|reflexivity].
 Qed.
+
+Lemma pt_ends_after_cancel :
+  forall unicast c es1 y1,
+  lsys_run unicast pause_table c (lsys0 c) es1 = LOk y1 -> lt_cancel (y_t y1) = true ->
+  exists es2 y2, lsys_run unicast pause_table c y1 es2 = LOk y2 /\ terminal (y_s y2) = true /\
+                 l_k (y_s y2) = l_k (y_s y1).
+Proof.
+  intros unicast c es1 y1 H Hc.
+  apply (unit_can_end pause_table life_reach_set life_cert delay_cert unicast c y1).
+  - exact (life_linv_run pause_table life_reach_set life_cert delay_cert unicast c es1 (lsys0 c) y1
+                         (linv_init life_reach_set c) H).
+  - exact (winv_run unicast pause_table c es1 (lsys0 c) y1 (winv_init c) H).
+  - intros Hp.
+    pose proof (started_if_delivered unicast pause_table c es1 (lsys0 c) y1 H (fun _ => eq_refl) Hp) as Ht.
+    rewrite Ht in Hc. discriminate.
+Qed.
